@@ -3,7 +3,12 @@ C06 — lockup: locked funds are safe, time-locked and exactly indexed.
 Theorems over `OsmoVerif.Lockup` (tied to x/lockup's msg server + keeper by the `lockup` engine through
 the real app).  Histories are arbitrary lists of (block time, operation); the operations are the
 lockup messages (with their ValidateBasic), `UnlockMaturedLock`, the EndBlocker's
-`WithdrawMaturedLocks`, and keeper `AddTokensToLockByID` under its callers' contract (same denom).
+`WithdrawMaturedLocks`, keeper `AddTokensToLockByID` under its callers' contract (same denom), and the
+concentrated-liquidity keeper's locking of freshly minted full-range position shares (`clLock`:
+`CreateFullRangePositionLocked` / `…Unlocking` → mint into the module account + `CreateLockNoSend`).
+Shares of a CL denomination (`cl/pool/<id>`) are BURNED when their lock is withdrawn; module balance,
+accumulation and index statements hold for them like for every other denomination, the conservation
+statement is replaced by "no account ever receives them".
 No assumption on the block times is needed (monotone or not).
 -/
 import OsmoVerif.Proofs.LockupSorted
@@ -155,18 +160,43 @@ theorem every_query_sorted_without_duplicates {s : State} (h : Reachable s) :
 /-- amount of `dn` locked by owner `o`. -/
 def lockedBy (s : State) (o : Addr) (dn : Denom) : Int := lsum (fOwner o dn) s.locks
 
-theorem owner_plus_locked_conserved_step {t : Int} {s : State} {op : Op} (h : Inv s) (o : Addr) (dn : Denom) :
+theorem owner_plus_locked_conserved_step {t : Int} {s : State} {op : Op} (h : Inv s) (o : Addr) (dn : Denom)
+    (hcl : isCLDenom dn = false) :
     aget (step t s op).1.bal (o, dn) + lockedBy (step t s op).1 o dn = aget s.bal (o, dn) + lockedBy s o dn := by
   rcases step_eq t s op with ⟨_, e⟩ | ⟨s', r, ha, e⟩
   · rw [e]
   · rw [e]
     obtain ⟨Δ, ef⟩ := (applyOp_ok h ha).2
-    simp only [lockedBy, ef.bal, ef.locks]; omega
+    simp only [lockedBy, ef.bal o dn hcl, ef.locks]; omega
+
+/-- CL shares never reach an account: no operation raises any account's balance of a CL share denomination
+(they are minted straight into a lock and burned out of it). -/
+theorem cl_shares_never_paid_out_step {t : Int} {s : State} {op : Op} (h : Inv s) (o : Addr) (dn : Denom)
+    (hcl : isCLDenom dn = true) : aget (step t s op).1.bal (o, dn) ≤ aget s.bal (o, dn) := by
+  rcases step_eq t s op with ⟨_, e⟩ | ⟨s', r, ha, e⟩
+  · rw [e]; exact Int.le_refl _
+  · rw [e]
+    obtain ⟨Δ, ef⟩ := (applyOp_ok h ha).2
+    exact ef.balCL o dn hcl
+
+theorem cl_shares_never_paid_out (bal : List ((Addr × Denom) × Int)) (allowed : List Addr) (hist : List (Int × Op))
+    (o : Addr) (dn : Denom) (hcl : isCLDenom dn = true) :
+    aget (run (initState bal allowed) hist).bal (o, dn) ≤ aget bal (o, dn) := by
+  have key : ∀ (hist : List (Int × Op)) (s : State), Inv s → aget (run s hist).bal (o, dn) ≤ aget s.bal (o, dn) := by
+    intro hist
+    induction hist with
+    | nil => intro s _; exact Int.le_refl _
+    | cons x xs ih =>
+      intro s hs
+      show aget (run (step x.1 s x.2).1 xs).bal (o, dn) ≤ _
+      exact Int.le_trans (ih _ (inv_step hs)) (cl_shares_never_paid_out_step hs o dn hcl)
+  exact key hist (initState bal allowed) (inv_init bal allowed)
 
 /-- over any history, each owner's balance plus the amount he has locked stays what genesis gave him:
-coins leave a lock only into its owner's balance, and only the owner's balance pays for his locks. -/
+coins leave a lock only into its owner's balance, and only the owner's balance pays for his locks
+(CL shares excepted: see `cl_shares_never_paid_out`). -/
 theorem owner_plus_locked_conserved (bal : List ((Addr × Denom) × Int)) (allowed : List Addr) (hist : List (Int × Op))
-    (o : Addr) (dn : Denom) :
+    (o : Addr) (dn : Denom) (hcl : isCLDenom dn = false) :
     let s := run (initState bal allowed) hist
     aget s.bal (o, dn) + lockedBy s o dn = aget bal (o, dn) := by
   have key : ∀ (hist : List (Int × Op)) (s : State), Inv s →
@@ -177,7 +207,7 @@ theorem owner_plus_locked_conserved (bal : List ((Addr × Denom) × Int)) (allow
     | cons x xs ih =>
       intro s hs
       show aget (run (step x.1 s x.2).1 xs).bal (o, dn) + lockedBy (run (step x.1 s x.2).1 xs) o dn = _
-      rw [ih _ (inv_step hs), owner_plus_locked_conserved_step hs]
+      rw [ih _ (inv_step hs), owner_plus_locked_conserved_step hs o dn hcl]
   have := key hist (initState bal allowed) (inv_init bal allowed)
   have h0 : lockedBy (initState bal allowed) o dn = 0 := rfl
   have h1 : (initState bal allowed).bal = bal := rfl
@@ -221,25 +251,31 @@ balance by at most the coins of that account's OWN locks that are matured at `t`
 theorem coins_only_to_owner_after_end {t : Int} {s : State} {op : Op} (h : Inv s) (hf : op.isForce = false)
     (o : Addr) (dn : Denom) :
     aget (step t s op).1.bal (o, dn) ≤ aget s.bal (o, dn) + lsum (fMat t o dn) s.locks := by
-  have hcons := owner_plus_locked_conserved_step (t := t) (op := op) h o dn
-  have hun := unmatured_locked_never_decreases (t := t) (op := op) h hf o dn
-  have hsplit : ∀ L : List Lock, lsum (fOwner o dn) L = lsum (fUnm t o dn) L + lsum (fMat t o dn) L := by
-    intro L
-    rw [← lsum_add]
-    congr 1
-    funext l
-    simp only [fOwner, fUnm, fMat]
-    by_cases h1 : l.owner = o <;> cases h2 : matured t l <;> simp [h1]
-  have hi' : Inv (step t s op).1 := inv_step h
-  have hnn : 0 ≤ lsum (fMat t o dn) (step t s op).1.locks := by
+  have nonneg : ∀ s : State, Inv s → 0 ≤ lsum (fMat t o dn) s.locks := by
+    intro s hi
     apply lsum_nonneg
     intro l hl
-    obtain ⟨dn0, a, hc, ha, _⟩ := hi'.single l hl
+    obtain ⟨dn0, a, hc, ha, _⟩ := hi.single l hl
     simp only [fMat, amt_single dn0 dn a l hc]
     repeat' split
     all_goals omega
-  simp only [lockedBy, hsplit] at hcons
-  omega
+  cases hcl : isCLDenom dn
+  · have hcons := owner_plus_locked_conserved_step (t := t) (op := op) h o dn hcl
+    have hun := unmatured_locked_never_decreases (t := t) (op := op) h hf o dn
+    have hsplit : ∀ L : List Lock, lsum (fOwner o dn) L = lsum (fUnm t o dn) L + lsum (fMat t o dn) L := by
+      intro L
+      rw [← lsum_add]
+      congr 1
+      funext l
+      simp only [fOwner, fUnm, fMat]
+      by_cases h1 : l.owner = o <;> cases h2 : matured t l <;> simp [h1]
+    have hnn := nonneg (step t s op).1 (inv_step h)
+    simp only [lockedBy, hsplit] at hcons
+    omega
+  · -- CL shares are never paid out at all
+    have := cl_shares_never_paid_out_step (t := t) (op := op) h o dn hcl
+    have := nonneg s h
+    omega
 
 /-! ### lock level: end time = unlock start + duration, frozen; release only when matured -/
 
@@ -373,6 +409,26 @@ example : qOwner demo "A" = [1] ∧ qDenomLonger demo "foo" 0 = [1, 2] ∧ qOwne
 /-- the refused early unlock really is refused, the one at the end time succeeds. -/
 example : (step 209 (run (initState [(("A", "foo"), 1000), (("B", "foo"), 500)] []) (demoHist.take 5)) (.unlockMatured 3)).2 = none ∧
     (step 210 (run (initState [(("A", "foo"), 1000), (("B", "foo"), 500)] []) (demoHist.take 5)) (.unlockMatured 3)).2 = some 0 := by
+  decide
+
+/-! ### CL shares: locked by the CL keeper, burned on withdrawal -/
+
+def clDemoHist : List (Int × Op) := [
+  (100, .clLock "A" "cl/pool/1" 500 10 false),      -- lock 1: 500 shares minted into the module account
+  (100, .clLock "B" "cl/pool/1" 70 25 true),        -- lock 2, unlocking at once (migration path), until 125
+  (100, .lockTokens "A" [("cl/pool/1", 5)] 10),     -- refused: nobody holds shares
+  (110, .beginUnlock "A" 1 [("cl/pool/1", 200)]),   -- splits: lock 3 unlocking until 120
+  (120, .withdrawMatured 0)]                        -- lock 3 withdrawn: its 200 shares are burned
+
+def clDemo : State := run (initState [(("A", "foo"), 1000)] []) clDemoHist
+
+example : isCLDenom "cl/pool/1" = true ∧ isCLDenom "foo" = false ∧ isCLDenom "gamm/pool/1" = false := by decide
+example : clDemo.locks.map (·.id) = [1, 2] ∧ clDemo.locks.map (·.coins) = [[("cl/pool/1", 300)], [("cl/pool/1", 70)]] ∧
+    clDemo.locks.map (·.endTime) = [none, some 125] := by decide
+/-- module account and accumulation follow the live locks; the owner received nothing. -/
+example : aget clDemo.modBal "cl/pool/1" = 370 ∧ aget clDemo.bal ("A", "cl/pool/1") = 0 ∧
+    accumQuery clDemo "cl/pool/1" 0 = 370 ∧ accumQuery clDemo "cl/pool/1" 11 = 70 ∧ accumQuery clDemo "cl/pool/1" 26 = 0 := by decide
+example : (step 100 (run (initState [(("A", "foo"), 1000)] []) (clDemoHist.take 2)) (.lockTokens "A" [("cl/pool/1", 5)] 10)).2 = none := by
   decide
 
 /-! ## recorded observations outside the property (keeper API, not reachable through messages) -/
